@@ -447,6 +447,87 @@ def clause_f(repo, chk):
     chk.require_count("F-tie", 2)
 
 
+# --------------------------------------------------------------------------- (g), (h): round-3 seeds
+def clause_g(repo, chk):
+    """remove_bound() removes every bound - also the bound of a tied, non-head variable"""
+    from ..sym import SelfObj, Translator, Unmodelled
+
+    chk.rule("G-unbound", "remove_bound(), interpreted on a manager with bounds on an untied variable, on the head and on a non-head member of a tie group and on a name that is no variable: bnd_dic is empty afterwards and the removed bounds are returned")
+    vm = repo.cls("%s::VarsManager" % VAR)
+    fn = vm.methods.get("remove_bound")
+    if fn is None or "_remove_bound" not in vm.methods:
+        raise AnalysisError("anchor vanished: VarsManager.remove_bound / _remove_bound")
+    import sympy as sp
+    var = {k: sp.Symbol("V_" + k, real=True) for k in ("a", "b", "c", "u")}
+    bnd = {"u": "bound-u", "a": "bound-a", "c": "bound-c", "ghost": "bound-ghost"}
+    tr = Translator(repo, hooks={"allow_attr_store": True, vm.methods["get"].key: lambda tr_, a_, k_, n_: sp.Symbol("value")}, max_depth=3)
+    so = SelfObj(vm, {"variables": dict(var), "bnd_dic": dict(bnd), "same_list": [["a", "b", "c"]], "trainable_vars": ["a", "u"], "pre_trans": {}})
+    try:
+        ret = tr.call_fn(fn, [], self_obj=so)
+    except Unmodelled as e:
+        raise AnalysisError("VarsManager.remove_bound not interpretable on the small manager: %s" % e)
+    left = sorted(so.attrs["bnd_dic"])
+    ok = not left and ret == bnd
+    chk.oblige("G-unbound", "remove_bound on {u, head a, tied c, ghost}: bounds left %s, returned %s" % (left or "none", sorted(ret) if isinstance(ret, dict) else ret), ok)
+    if left:
+        chk.violation("G-unbound", vm.methods["_remove_bound"].key, "left:" + ",".join(left), "after remove_bound() the bound(s) of %s are still in bnd_dic (tie group [a, b, c], bounds on u, a, c and a non-variable): a stale bound keeps transforming the parameter in every later read / fit" % left, file=VAR, line=vm.methods["_remove_bound"].lineno)
+    elif ret != bnd:
+        chk.violation("G-unbound", fn.key, "returned", "remove_bound() returns %r instead of the removed bounds (callers restore them after the fit)" % (ret,), file=VAR, line=fn.lineno)
+
+
+def clause_h(repo, chk):
+    """set_same: one shared variable, one group, and the group is free only if every part was free"""
+    import sympy as sp
+
+    from ..sym import SelfObj, Translator, Unmodelled
+
+    chk.rule("H-tiefix", "set_same(names), interpreted on a manager with the tie [a, b], a fixed c, a free d and the fixed tie [e, f] for nine argument lists: afterwards every member of the merged group is bound to one variable, the group is listed once in same_list, and trainable_vars holds exactly one member of the group if every merged part was free and none if any part was fixed; other variables are untouched")
+    vm = repo.cls("%s::VarsManager" % VAR)
+    fn = vm.methods.get("set_same")
+    if fn is None:
+        raise AnalysisError("anchor vanished: VarsManager.set_same")
+    cases = [["b", "c"], ["c", "b"], ["a", "c"], ["c", "a"], ["b", "d"], ["d", "a"], ["d", "g"], ["a", "e"], ["f", "d"]]
+    bad = []
+    for names in cases:
+        var = {k: sp.Symbol("V_" + k, real=True) for k in "abcdefgh"}
+        var["b"], var["f"] = var["a"], var["e"]  # members of an existing tie already share their variable
+        groups0 = [["a", "b"], ["e", "f"]]
+        train0 = ["a", "d", "g", "h"]  # b, f: tied non-heads; c fixed; e: head of a fixed tie
+        so = SelfObj(vm, {"variables": dict(var), "same_list": [list(g) for g in groups0], "trainable_vars": list(train0), "complex_vars": {}, "bnd_dic": {}})
+        tr = Translator(repo, hooks={"allow_attr_store": True}, max_depth=3)
+        try:
+            tr.call_fn(fn, [list(names)], self_obj=so)
+        except Unmodelled as e:
+            raise AnalysisError("VarsManager.set_same not interpretable on the small manager (%s): %s" % (names, e))
+        part = lambda x: next((g for g in groups0 if x in g), [x])
+        merged = []
+        for x in names:
+            for y in part(x):
+                if y not in merged:
+                    merged.append(y)
+        free = all((part(x)[0] in train0) for x in names)
+        V, T, S = so.attrs["variables"], so.attrs["trainable_vars"], so.attrs["same_list"]
+        in_t = [x for x in merged if x in T]
+        why = None
+        if len({V[x] for x in merged}) != 1:
+            why = "the members %s are bound to %d different variables" % (merged, len({V[x] for x in merged}))
+        elif [sorted(g) for g in S if set(g) & set(merged)] != [sorted(merged)]:
+            why = "same_list holds %s for the merged group %s" % ([g for g in S if set(g) & set(merged)], merged)
+        elif free and len(in_t) != 1:
+            why = "all merged parts were free but %d members (%s) are trainable afterwards" % (len(in_t), in_t)
+        elif not free and in_t:
+            why = "a merged part was fixed but %s stay(s) trainable: the fixed parameter moves with the fit" % in_t
+        elif sorted(x for x in T if x not in merged) != sorted(x for x in train0 if x not in merged) or len(set(T)) != len(T):
+            why = "trainable_vars of the other variables changed: %s" % (T,)
+        elif any(V[x] != var[x] for x in var if x not in merged):
+            why = "a variable outside the group was rebound"
+        if why:
+            bad.append((tuple(names), why))
+    chk.oblige("H-tiefix", "set_same on %d argument lists: one variable, one group, trainable iff every part was free" % len(cases), not bad)
+    for names, why in bad[:3]:
+        chk.violation("H-tiefix", fn.key, "case:" + "+".join(names), "set_same(%s) on ties [a, b] (free), [e, f] (fixed), fixed c, free d, g: %s" % (list(names), why), file=VAR, line=fn.lineno)
+
+
 def run(repo, chk, tier):
     chk.assume("history-level invariants (sequences of operations) are not decided; each clause is a necessary condition on a single operation")
     clause_a(repo, chk)
@@ -455,3 +536,5 @@ def run(repo, chk, tier):
     clause_d(repo, chk)
     clause_e(repo, chk)
     clause_f(repo, chk)
+    clause_g(repo, chk)
+    clause_h(repo, chk)
